@@ -1,3 +1,4 @@
+import RavenModel.Model.Plan
 import RavenModel.Model.World
 /-! # C05 — a session reaches only its own stores and only the mailbox it selected -/
 namespace Raven.Props.C05
@@ -79,5 +80,17 @@ example : selectTarget ⟨fun a => if a = b!"sales@x" then some 7 else none, fun
 example : selectTarget ⟨fun a => if a = b!"sales@x" then some 7 else none, fun u r => u = 1 && r = 7⟩ 2 (b!"Roles/sales@x/INBOX")
     = none := by decide
 example : selectTarget ⟨fun _ => none, fun _ _ => true⟩ 1 (b!"Roles/sales@x") = none := by decide
+
+/-! ## whose store an address or a name resolves to (plan regenerated from /repo on every run) -/
+
+/-- C05.10  recipients, users, role mailboxes, role assignments and mailbox names are resolved by equality: none of the
+statements on the path from an address or a name to a store or a mailbox uses `LIKE` — so no address is a pattern for another
+one (`sales_@…` vs `sales0@…`), for logins and deliveries alike. -/
+theorem plan_resolution_exact :
+    [(b!"db.GetUserByUsername"), (b!"db.GetUserByEmail"), (b!"db.GetRoleMailboxByEmail"), (b!"db.RoleMailboxExists"),
+     (b!"db.GetOrCreateUserInitialized"), (b!"db.GetOrCreateDomain"), (b!"db.IsUserAssignedToRoleMailbox"),
+     (b!"db.GetMailboxByNamePerUser"), (b!"db.MailboxExistsPerUser"), (b!"storage.DeliverMessage")].all
+      (fun f => Plan.free (b!"LIKE(") (Plan.trace f) && !(Plan.trace f).isEmpty) = true := by
+  decide
 
 end Raven.Props.C05
